@@ -79,6 +79,7 @@ nlopt_result auglag_minimize(int n, nlopt_func f, void *f_data,
      nlopt_result ret = NLOPT_SUCCESS;
      double ICM = HUGE_VAL, minf_penalty = HUGE_VAL, penalty;
      double *xcur = NULL, fcur;
+     nlopt_result sub_ret;
      int i, ii, feasible, minf_feasible = 0;
      unsigned int k;
      int auglag_iters = 0;
@@ -201,7 +202,10 @@ nlopt_result auglag_minimize(int n, nlopt_func f, void *f_data,
 							- stop->start));
 	  if (auglag_verbose)
 	       printf("auglag: subopt return code %d\n", ret);
-	  if (ret < 0) break;
+	  /* a roundoff-limited subsidiary run still returns its best point:
+	     record it below before giving up */
+	  if (ret < 0 && ret != NLOPT_ROUNDOFF_LIMITED) break;
+	  sub_ret = ret;
 	  
 	  ++ *(d.stop->nevals_p);
 	  fcur = f(n, xcur, NULL, f_data);
@@ -274,6 +278,7 @@ nlopt_result auglag_minimize(int n, nlopt_func f, void *f_data,
 	  }
 
 	  if (nlopt_stop_forced(stop)) {ret = NLOPT_FORCED_STOP; break;}
+	  if (sub_ret == NLOPT_ROUNDOFF_LIMITED) {ret = sub_ret; break;}
 	  if (nlopt_stop_evals(stop)) {ret = NLOPT_MAXEVAL_REACHED; break;}
           if (nlopt_stop_time(stop)) {ret = NLOPT_MAXTIME_REACHED; break;}
 
